@@ -350,6 +350,11 @@ func (m *emitModel) hooks() Hooks {
 			return tagV("scopedepth", ""), true
 		case "<parser>.prev.val":
 			return tagV("prevval", p.epoch), true
+		case "<parser>.prev":
+			// the token copied into a local (tok := p.prev): its type and text are what p.prev's are now
+			if _, isSel := stripParens(e).(*ast.SelectorExpr); isSel && isNamed(c.typeOf(e), bclPath, "token") {
+				return Value{K: vStruct, T: c.typeOf(e), Fields: map[string]Value{"typ": p.prevTyp, "val": tagV("prevval", p.epoch)}}, true
+			}
 		}
 		// rules[t] written in place of getRule(t)
 		if ix, ok := e.(*ast.IndexExpr); ok && m.isRulesIndex(ix) {
